@@ -772,8 +772,22 @@ func c12RunCell(w *c12World, cell c12Cell, dir string) []c12Step {
 		target(c)
 	case "clone":
 		orig := newClient()
-		target(orig)
-		c = orig.Clone()
+		hsh := 0
+		for _, ch := range cell.String() {
+			hsh = (hsh*31 + int(ch)) & 0xffff
+		}
+		if hsh%2 == 1 {
+			// round 6: the original carries TRANSPORT MIDDLEWARE when it is cloned and keeps its
+			// default settings; the cell's settings (forced version, TLS, custom functions) are
+			// applied to the CLONE — its chain must end in its own round trip (lane c12wrap, theorem
+			// request_governed_by_own_settings). Same model cell: the client's final settings.
+			c12InstallTransportWrapper(orig, (hsh/2)%4, 1)
+			c = orig.Clone()
+			target(c)
+		} else {
+			target(orig)
+			c = orig.Clone()
+		}
 		// the dial counter and the custom functions are fields of Options: copied by Clone
 	case "changed":
 		c = newClient()
@@ -1185,6 +1199,10 @@ func TestVerif_C12_seq(t *testing.T) {
 				c := C().EnableHTTP3()
 				c12ApplyTLS(c, tc, "helpers-string", dir)
 				id := c12CellSeq.Add(1)
+				if rep%2 == 0 {
+					// transport middleware installed before any Clone of this client (round 6)
+					c12InstallTransportWrapper(c, int(id)%4, 1)
+				}
 				rec := &c12CustomRec{}
 				s0 := c12Request(c, o, base, "-", true, tc, "12", rec, c12ReqState{}, fmt.Sprintf("/q%d/s0", id), &noDials)
 				s0.human = fmt.Sprintf("seq(a:%s) tls=%s: un-forced + EnableHTTP3, request 1 to %s", later, tc.name, o.offer)
